@@ -6,22 +6,9 @@
 import Jence.Model.MoveGen
 import Jence.Lemmas.ListExtra
 import Jence.Lemmas.Legality
+import Jence.Lemmas.BitScan
 namespace Jence.Props.C01
 open Jence
-
-theorem tzcnt_le (b : UInt64) : tzcnt b ≤ 64 := by
-  unfold tzcnt
-  split
-  · omega
-  · simp only
-    repeat' split
-    all_goals omega
-
-theorem tzcnt_lt (b : UInt64) (hb : (b == 0) = false) : tzcnt b < 64 := by
-  unfold tzcnt
-  simp only [hb, Bool.false_eq_true, ↓reduceIte]
-  repeat' split
-  all_goals omega
 
 theorem bitsOfAux_lt (fuel : Nat) (b : UInt64) (acc : List Nat) (h : ∀ s ∈ acc, s < 64) :
     ∀ s ∈ bitsOfAux fuel b acc, s < 64 := by
@@ -35,7 +22,7 @@ theorem bitsOfAux_lt (fuel : Nat) (b : UInt64) (acc : List Nat) (h : ∀ s ∈ a
       apply ih
       intro s hs
       rcases List.mem_cons.mp hs with rfl | hs
-      · exact tzcnt_lt b (by simpa using hb)
+      · exact Jence.tzcnt_lt b (by simpa using hb)
       · exact h s hs
 
 /-- the squares a bit-set loop visits are squares -/
